@@ -117,6 +117,8 @@ unsigned long rt_faults_fired (void);
 void rt_malloc_ranges_clear (void);
 void rt_malloc_range_add (const void *lo, const void *hi);   /* code range whose malloc calls are candidates */
 void rt_malloc_fail_nth (long n);     /* fail the n-th (from 0) candidate malloc from now on; n<0: none; resets the counters */
+void rt_malloc_scope_mode (int on);   /* candidates = allocations made by a thread inside rt_malloc_scope(+1)..(-1) and NOT from a registered range */
+void rt_malloc_scope (int delta);
 long rt_malloc_seen (void);           /* candidate mallocs seen since the plan was set */
 long rt_malloc_other (void);          /* other (wrapped) mallocs seen, e.g. waiter-pool allocations */
 long rt_malloc_failed (void);
